@@ -107,7 +107,10 @@ pub fn exec_issue(input: &Value) -> Value {
     let mut val = Validation::new(algorithm(&alg));
     val.validate_exp = false;
     let mut outs = Vec::new();
-    let t0 = std::time::SystemTime::now().duration_since(std::time::UNIX_EPOCH).unwrap().as_secs();
+    let clock = || std::time::SystemTime::now().duration_since(std::time::UNIX_EPOCH).unwrap().as_secs();
+    let t0 = clock();
+    // the most recent expires_in_seconds(n): n and the clock before / after the call
+    let mut last_exp: Option<(i64, u64, u64)> = input["exp_in"].as_i64().map(|n| (n, t0, t0));
     let built = catch_unwind(AssertUnwindSafe(|| {
         let mut iss = Issuer::new(claims.clone()).ok()?;
         for p in &paths {
@@ -125,12 +128,24 @@ pub fn exec_issue(input: &Value) -> Value {
         }
         Some(iss)
     }));
+    if let Some(e) = last_exp.as_mut() {
+        e.2 = clock();
+    }
     let mut iss = match built {
         Ok(Some(i)) => i,
         Ok(None) => return json!({"calls": [{"encode": {"o": "err"}}]}),
         Err(_) => return json!({"calls": [{"encode": {"o": "panic"}}]}),
     };
-    for _ in 0..calls {
+    for i in 0..calls {
+        // the same issuer object asked for another lifetime before this call
+        if let Some(n) = input["exp_in_seq"].get(i).and_then(|v| v.as_i64()) {
+            let a = clock();
+            if catch_unwind(AssertUnwindSafe(|| { iss.expires_in_seconds(n); })).is_err() {
+                outs.push(json!({"encode": {"o": "panic"}}));
+                continue;
+            }
+            last_exp = Some((n, a, clock()));
+        }
         let enc = catch_unwind(AssertUnwindSafe(|| iss.encode(&ek)));
         match enc {
             Err(_) => outs.push(json!({"encode": {"o": "panic"}})),
@@ -139,7 +154,8 @@ pub fn exec_issue(input: &Value) -> Value {
                 let rb = readback(&token);
                 let hv = outcome(|| Holder::verify(&token, &dk, &val), |(h, c, ps)| json!([h, c, sorted_path_triples(&ps)]));
                 let t1 = std::time::SystemTime::now().duration_since(std::time::UNIX_EPOCH).unwrap().as_secs();
-                outs.push(json!({"encode": {"o": "ok", "v": token}, "readback": rb, "hverify": hv, "t0": t0, "t1": t1}));
+                outs.push(json!({"encode": {"o": "ok", "v": token}, "readback": rb, "hverify": hv, "t0": t0, "t1": t1,
+                                 "exp_n": last_exp.map(|e| e.0), "exp_t0": last_exp.map(|e| e.1), "exp_t1": last_exp.map(|e| e.2)}));
             }
         }
     }
